@@ -575,7 +575,9 @@ def snapshot(x, bits=False):
     """what a caller can observe of an operand: components + flags, and (bits=True) its encodings in all three formats"""
     snap = fp2s(x)
     if bits:
-        snap += ' | ' + ' '.join(i2s(real(x.convert, f)) for f in ('hp', 'sp', 'dp'))
+        import io, contextlib
+        with contextlib.redirect_stdout(io.StringIO()):      # convert() prints 'ERROR converting …' before a failing assert
+            snap += ' | ' + ' '.join(i2s(real(x.convert, f)) for f in ('hp', 'sp', 'dp'))
     return snap
 
 
